@@ -92,11 +92,21 @@ def run(ctx):
                 consts={"Fams": "{12, 14, 18}" if quick else "{11, 12, 13, 14, 18}", "NRand": 0, "RandKind": '"path"'})
     hvecs = sorted(os.path.join(g["dir"], f) for f in os.listdir(g["dir"]) if re.match(r"vec_\d+_\d+\.ndjson$", f))
     hres = ctx.path("hres.ndjson")
-    ctx.run_bin("xp-race", ["replay", "-out", hres] + hvecs, timeout=1800)
+    rh = ctx.run_bin("xp-race", ["replay", "-late", "20" if quick else "5", "-out", hres] + hvecs, timeout=1800, check=False)
+    if rh.returncode not in (0, 66):
+        raise Infra(f"xp replay (history) failed rc={rh.returncode}:\n{rh.stderr[-3000:]}")
+    hraces = rh.stderr.count("WARNING: DATA RACE")
+    if hraces:
+        i = rh.stderr.find("WARNING: DATA RACE")
+        ctx.disagree(dict(site="race-detector", phase="history-replay"), "data race reported while machines were run with the caller's context cancelled inside a callback",
+                     dict(kind="race", report=rh.stderr[i:i + 3000]))
     nhist = 0
     for o in read_ndjson(hres):
         nhist += 1
         for m in o["mism"]:
+            if m["kind"] in ("late-call", "late-result"):
+                ctx.disagree(dict(site="concurrency", what="run-" + m["kind"]), f"{o['expr']!r}: the run is not over when Run returns ({m['got']})",
+                             dict(kind=m["kind"], expr=o["expr"], want=m["want"], got=m["got"]))
             if m["kind"] == "history":
                 ctx.disagree(dict(site="concurrency", what="run-history"), f"a later run of {o['expr']!r} on the same tree differs from the first one after a run on another tree",
                              dict(kind="history", expr=o["expr"], first=m["want"], later=m["got"]))
